@@ -101,13 +101,31 @@ def build(tier, work, builder):
     jobs.append(F.Job("c13_collect_dependencies", "h_c13_collect_dependencies", [cdobj, hcd], timeout=600, unwind=24, level="bounded",
                       functions=["StatementBuilder::collectDependencies(std::set<symbol_t>&, expression_t)"],
                       bound_note="universe of 4 symbols: the worklist loop is unwound 24 times with an unwinding assertion (complete for 4 symbols, not for more)"))
+    # ---- checkType as a whole over real type trees (bounded shapes)
+    from checks import type_common as TY
+    tcl = TY.type_class(); write(work, "type_class.inc", tcl.text)
+    st = TY.type_data_structs(); write(work, "type_structs.inc", "\n".join(s.text for s in st) + "\n")
+    ms = TY.type_members(l12=())
+    write(work, "type_members_real.inc", "\n".join(s.text for s in ms) + "\n")
+    ctw = X.function(src, "TypeChecker::checkType (whole)", r"^void TypeChecker::checkType\(type_t type, bool initialisable, bool inStruct\)")
+    T.lower_literals(ctw)
+    ctw.sub("lower:std::tie(l,u)=get_range()", r"std::tie\(l, u\) = type\.get_range\(\);",
+            "{ std::pair<expression_t, expression_t> verif_r = type.get_range(); l = verif_r.first; u = verif_r.second; }")
+    write(work, "check_type.inc", ctw.text + "\n")
+    write(work, "msg_ids.h", T.msg_header())
+    slices += [tcl] + st + ms + [ctw]
+    ctobj = builder.cc(os.path.join(CDIR, "ct13.cpp"), includes=[work, os.path.join(X.REPO, "include")], cpp=True)
+    hct = builder.cc(os.path.join(CDIR, "h_ct13.c"), includes=[work])
+    jobs.append(F.Job("c13_check_type", "h_c13_check_type", [ctobj, hct], timeout=600, unwind=8, level="bounded",
+                      functions=["TypeChecker::checkType (whole function, real recursion)", "type_t::get_array_size / get_range / get / get_kind / is (real)"],
+                      bound_note="eight concrete type shapes: 1-3 array dimensions, typedef label, const / meta / reference prefix, record field (depth <= 4)"))
     return {
         "jobs": jobs, "slices": [s.info() for s in slices],
         "drops": ["isDefaultInt's body (arbitrary result)"],
         "trusted_base": ["CBMC 6.11 C++ front end + SAT", "flat type abstraction", "bit-mask std::set<symbol_t>", "stubs/tc_env.h",
                          "collect_possible_reads answered by its contract (one-level proof in C11: c11_collect_reads)"],
         "assumptions": ["the builder-side computation of template_t::restricted (StatementBuilder::collectDependencies) is under a bounded check only (4 symbols)",
-                        "checkType reaches its RANGE case for every array size / range bound / scalar-set size of a used type (checkType's recursion over LABEL/ARRAY/RECORD is not under contract)"],
+                        "checkType reaching the RANGE case of every array size / range bound of a declared type is under a BOUNDED check only (c13_check_type: eight type shapes, real recursion)"],
         "explanation": "",
     }
 
